@@ -20,6 +20,7 @@ type node struct {
 	groupBy    []string // nil = absent
 	gbSet      bool
 	match      map[string]string
+	matchRE    map[string]string // legacy match_re
 	matchers   []string
 	mute       []string
 	active     []string
@@ -113,7 +114,7 @@ func (n *node) enc(depth int, out *[]string, withExtra bool) {
 		extra = "x"
 	}
 	*out = append(*out, fmt.Sprintf("%d:%s:%s:%s:%d:%s:%s:%s:%s:%s:%s", depth, hx(n.receiver), gb, names(mk, "~"),
-		len(n.match)+len(n.matchers), names(n.mute, "~"), names(n.active, "~"), c, durNS(n.groupInt), durNS(n.repeatInt), extra))
+		len(n.match)+len(n.matchRE)+len(n.matchers), names(n.mute, "~"), names(n.active, "~"), c, durNS(n.groupInt), durNS(n.repeatInt), extra))
 	for _, ch := range n.children {
 		ch.enc(depth+1, out, withExtra)
 	}
@@ -308,6 +309,18 @@ func (n *node) yaml(b *strings.Builder, ind string, first bool) {
 			kv = append(kv, q(k)+": "+q(n.match[k]))
 		}
 		w("match: {" + strings.Join(kv, ", ") + "}")
+	}
+	if len(n.matchRE) > 0 {
+		var ks []string
+		for k := range n.matchRE {
+			ks = append(ks, k)
+		}
+		sort.Strings(ks)
+		var kv []string
+		for _, k := range ks {
+			kv = append(kv, q(k)+": "+q(n.matchRE[k]))
+		}
+		w("match_re: {" + strings.Join(kv, ", ") + "}")
 	}
 	if len(n.matchers) > 0 {
 		w("matchers: " + qlist(n.matchers))
@@ -529,7 +542,15 @@ func genTree(r *rand.Rand) *rawCfg {
 		case 6:
 			c.root.receiver = ""
 		case 7:
-			c.root.matchers = []string{"a=\"b\""}
+			// any of the three ways to put a matcher on the root
+			switch r.IntN(3) {
+			case 0:
+				c.root.matchers = []string{"a=\"b\""}
+			case 1:
+				c.root.match = map[string]string{"a": "b"}
+			default:
+				c.root.matchRE = map[string]string{"a": "b.*"}
+			}
 		case 8:
 			if len(c.mutes)+len(c.tis) > 0 {
 				c.root.mute = []string{append(append([]string{}, c.mutes...), c.tis...)[0]}
